@@ -182,7 +182,7 @@ EXTRA = {
  "C22": "lookup-index guard; in-progress memo reachability and mark-before-descend dominance; valid-anchor guard for optional nodes; Origin coverage of every syntax.Expr literal",
  "C23": "source-cursor bounds of the grammar lexer; sentinel-index guards in verbose conflict explanations; memoised recursions of the compiler",
  "C25": "in-place merge exploration; min-update idiom and Tarjan sibling checks",
- "C28": "explicit-id path check; non-empty return analysis of ident.Produce; seeding coverage of the taken-name set of extracted nonterminals",
+ "C28": "explicit-id path check; non-empty return analysis of ident.Produce; identifier-level freshness of extracted mid-rule nonterminals",
  "C29": "must-return of parser errors in ast.Parse; monotonicity of the poll counter; identity of the error handler handed to the parser",
  "C30": "three-copy agreement of %prec; Reference literals carry Model; kinds reaching ExprString; token-ID vs nonterminal-name namespace check",
 }
